@@ -1,15 +1,20 @@
 import SakuraVerif.Model.Time
 import SakuraVerif.Model.Smf
 import SakuraVerif.Model.Messages
+import SakuraVerif.Lemmas.Normalize
 /-! # C14 — TIME, MeasureShift, rests and PlayFrom put events at the documented ticks
 
 * `C14_time_formula`: `TIME(m:b:t)` = ((m−1+shift)·numerator + (b−1))·beat + t with
   beat = 4·timebase/denominator, for all arguments; `TIME(n)` = n.
 * PlayFrom on event lists (model of `Track::play_from`, tied to the code by the correspondence):
-  the result is the re-issued controller values (in controller order) and program, all at tick 0
-  and **ahead of every remaining event**, followed by exactly the events kept by `keepOf` in their
-  original order: notes/programs/controllers at or after the point shifted by −p, meta/SysEx
-  shifted and clamped at 0, everything before the point dropped. -/
+  the result is the re-issued controller values and programs (channel by channel, controllers in number order), all at tick 0
+  and **ahead of every remaining event**, followed by exactly the events kept by `keepOf` in time order (issue order within a
+  tick): notes/programs/controllers at or after the point shifted by −p, meta/SysEx shifted and clamped at 0, everything
+  before the point dropped.
+* `C14_restores_latest_in_time` / `C14_restores_latest_program`: every re-issued value is the value of an event written before the
+  point **on that channel** that no other such event is later than — the value in force at the point, even when the program
+  wrote its events out of time order (`TIME` jumping back) or changed channel within the track.  (Before the repairs the scan
+  ran in issue order and re-issued everything on the last channel seen.) -/
 namespace Sakura.Props.C14
 open Sakura Sakura.Time
 
@@ -60,67 +65,220 @@ theorem out_fold (p : Int) (es : List Event) (a : PfAcc) :
     rw [List.foldl_cons, ih, out_step]
     cases h : keepOf p e <;> simp [List.filterMap_cons, h]
 
-/-- shape of the result: restored controllers, restored program, then the kept events in order -/
+/-- shape of the result: the restored values, then the kept events in time order -/
 theorem C14_playFrom_shape (p : Int) (es : List Event) :
-    ∃ (ch : Int) (cc : List (Nat × Int)) (voice : Int),
-      playFrom p es = restoreCc ch cc ++ (if voice ≥ 0 then [voiceEvent ch voice] else []) ++ es.filterMap (keepOf p) := by
-  refine ⟨(es.foldl (pfStep p) ⟨[], [], -1, 0⟩).ch, (es.foldl (pfStep p) ⟨[], [], -1, 0⟩).cc,
-    (es.foldl (pfStep p) ⟨[], [], -1, 0⟩).voice, ?_⟩
+    playFrom p es = restoreAll (pfAcc p es) ++ (sortByTime es).filterMap (keepOf p) := by
   unfold playFrom
-  simp only []
-  rw [out_fold]
-  simp
+  rw [show (pfAcc p es).out.reverse = (sortByTime es).filterMap (keepOf p) from by
+    unfold pfAcc; rw [out_fold]; simp]
 
-/-- every re-issued event is a controller or program change at tick 0 -/
-theorem C14_restored_at_zero (ch : Int) (cc : List (Nat × Int)) (voice : Int) :
-    ∀ e ∈ restoreCc ch cc ++ (if voice ≥ 0 then [voiceEvent ch voice] else []),
-      e.time = 0 ∧ (e.kind = .cc ∨ e.kind = .voice) := by
-  intro e he
-  rcases List.mem_append.mp he with h | h
-  · unfold restoreCc at h
-    obtain ⟨no, _, hno⟩ := List.mem_filterMap.mp h
+/-- every re-issued event is a controller or program change at tick 0 whose value is the one remembered for its channel -/
+theorem C14_restored_at_zero (a : PfAcc) :
+    ∀ x ∈ restoreAll a, x.time = 0 ∧
+      ((x.kind = .cc ∧ 0 ≤ x.ch ∧ 0 ≤ x.v1 ∧ a.cc.lookup (x.ch.toNat, x.v1.toNat) = some x.v2) ∨
+       (x.kind = .voice ∧ 0 ≤ x.ch ∧ a.voice.lookup x.ch.toNat = some x.v1)) := by
+  intro x hx
+  unfold restoreAll at hx
+  obtain ⟨l, hl, hxl⟩ := List.mem_flatten.mp hx
+  obtain ⟨ch, _, rfl⟩ := List.mem_map.mp hl
+  unfold restoreCh at hxl
+  rcases List.mem_append.mp hxl with h | h
+  · obtain ⟨no, _, hno⟩ := List.mem_filterMap.mp h
     split at hno
-    · split at hno
+    · rename_i v hv
+      split at hno
       · simp at hno
-      · simp only [Option.some.injEq] at hno; subst hno; simp [ccEvent]
+      · simp only [Option.some.injEq] at hno; subst hno
+        refine ⟨rfl, Or.inl ⟨rfl, ?_, ?_, ?_⟩⟩
+        · simp [ccEvent]
+        · simp [ccEvent]
+        · simpa [ccEvent] using hv
     · simp at hno
   · split at h
-    · simp at h; subst h; simp [voiceEvent]
+    · rename_i v hv
+      split at h
+      · simp only [List.mem_singleton] at h; subst h
+        refine ⟨rfl, Or.inr ⟨rfl, ?_, ?_⟩⟩
+        · simp [voiceEvent]
+        · simpa [voiceEvent] using hv
+      · simp at h
     · simp at h
 
-/-- restored controllers come in controller-number order and each number at most once -/
-theorem C14_restored_order (ch : Int) (cc : List (Nat × Int)) :
-    ((restoreCc ch cc).map (·.v1)).Pairwise (· < ·) := by
-  unfold restoreCc
-  have hr : (List.range 128).Pairwise (· < ·) := List.pairwise_lt_range
-  revert hr
-  generalize List.range 128 = l
-  intro hr
-  induction l with
+/-! ### which value is remembered: the latest in time on that channel -/
+
+theorem lookup_setKey {κ : Type} [BEq κ] [LawfulBEq κ] [DecidableEq κ] (l : List (κ × Int)) (k k' : κ) (v : Int) :
+    (setKey l k v).lookup k' = if k' = k then some v else l.lookup k' := by
+  unfold setKey
+  by_cases h : k' = k
+  · subst h; simp [List.lookup]
+  · simp only [h, if_false]
+    have hb : (k' == k) = false := by simpa using h
+    simp only [List.lookup, hb]
+    induction l with
+    | nil => rfl
+    | cons q r ih =>
+      simp only [List.filter_cons]
+      by_cases hq : q.1 = k
+      · have : (q.1 == k) = true := by simpa using hq
+        simp only [this, Bool.not_true]
+        rw [if_neg (by simp)]
+        rw [ih]
+        have : (k' == q.1) = false := by rw [hq]; exact hb
+        simp [List.lookup, this]
+      · have : (q.1 == k) = false := by simpa using hq
+        simp only [this, Bool.not_false, if_true]
+        simp only [List.lookup]
+        split
+        · rfl
+        · exact ih
+
+/-- the controller events the scan remembers for key `(channel, controller)` -/
+def isCcFor (p : Int) (k : Nat × Nat) (e : Event) : Bool :=
+  decide (e.kind = .cc) && decide (e.time - p < 0) && decide (0 ≤ e.v1 ∧ e.v1 < 128 ∧ 0 ≤ e.ch ∧ e.ch < 16) && decide ((e.ch.toNat, e.v1.toNat) = k)
+def isVoiceFor (p : Int) (k : Nat) (e : Event) : Bool :=
+  decide (e.kind = .voice) && decide (e.time - p < 0) && decide (0 ≤ e.ch ∧ e.ch < 16) && decide (e.ch.toNat = k)
+
+theorem cc_step (p : Int) (a : PfAcc) (e : Event) (k : Nat × Nat) :
+    (pfStep p a e).cc.lookup k = if isCcFor p k e then some e.v2 else a.cc.lookup k := by
+  by_cases hk : e.kind = .cc
+  · unfold pfStep isCcFor
+    simp only [hk]
+    by_cases ht : e.time - p < 0
+    · simp only [ht, if_true]
+      by_cases hr : 0 ≤ e.v1 ∧ e.v1 < 128 ∧ 0 ≤ e.ch ∧ e.ch < 16
+      · simp only [hr, and_self, if_true, lookup_setKey]
+        by_cases hkk : k = (e.ch.toNat, e.v1.toNat)
+        · subst hkk; simp
+        · have : ¬ (e.ch.toNat, e.v1.toNat) = k := fun h => hkk h.symm
+          simp [hkk, this]
+      · simp [hr]
+    · simp [ht]
+  · have hf : isCcFor p k e = false := by simp [isCcFor, hk]
+    have hc : (pfStep p a e).cc = a.cc := by
+      unfold pfStep
+      cases hk' : e.kind <;> simp only [] <;> (try rfl) <;> (try (split <;> (try split) <;> rfl))
+      exact absurd hk' hk
+    rw [hf, hc]; simp
+
+theorem voice_step (p : Int) (a : PfAcc) (e : Event) (k : Nat) :
+    (pfStep p a e).voice.lookup k = if isVoiceFor p k e then some e.v1 else a.voice.lookup k := by
+  by_cases hk : e.kind = .voice
+  · unfold pfStep isVoiceFor
+    simp only [hk]
+    by_cases ht : e.time - p < 0
+    · simp only [ht, if_true]
+      by_cases hr : 0 ≤ e.ch ∧ e.ch < 16
+      · simp only [hr, and_self, if_true, lookup_setKey]
+        by_cases hkk : k = e.ch.toNat
+        · subst hkk; simp
+        · have : ¬ e.ch.toNat = k := fun h => hkk h.symm
+          simp [hkk, this]
+      · simp [hr]
+    · simp [ht]
+  · have hf : isVoiceFor p k e = false := by simp [isVoiceFor, hk]
+    have hc : (pfStep p a e).voice = a.voice := by
+      unfold pfStep
+      cases hk' : e.kind <;> simp only [] <;> (try rfl) <;> (try (split <;> (try split) <;> rfl))
+      exact absurd hk' hk
+    rw [hf, hc]; simp
+
+theorem fold_last {β : Type} (step : PfAcc → Event → PfAcc) (get : PfAcc → Option β) (sel : Event → Bool) (val : Event → β)
+    (hstep : ∀ a e, get (step a e) = if sel e then some (val e) else get a) (l : List Event) (a : PfAcc) :
+    get (l.foldl step a) = match (l.filter sel).getLast? with | some e => some (val e) | none => get a := by
+  induction l generalizing a with
   | nil => simp
-  | cons x xs ih =>
-    obtain ⟨hx, hxs⟩ := List.pairwise_cons.mp hr
-    simp only [List.filterMap_cons]
-    split
-    · exact ih hxs
-    · rename_i ev hev
-      simp only [List.map_cons, List.pairwise_cons]
-      refine ⟨?_, ih hxs⟩
-      intro v hv
-      obtain ⟨e, he, rfl⟩ := List.mem_map.mp hv
-      obtain ⟨no, hno, hno2⟩ := List.mem_filterMap.mp he
-      have hxno := hx no hno
-      split at hev
-      · split at hev
-        · simp at hev
-        · simp only [Option.some.injEq] at hev; subst hev
-          split at hno2
-          · split at hno2
-            · simp at hno2
-            · simp only [Option.some.injEq] at hno2; subst hno2
-              simp [ccEvent]; omega
-          · simp at hno2
-      · simp at hev
+  | cons e r ih =>
+    rw [List.foldl_cons, ih, hstep]
+    simp only [List.filter_cons]
+    by_cases hs : sel e = true
+    · simp only [hs, if_true]
+      cases hr : (r.filter sel).getLast? with
+      | none =>
+        have : r.filter sel = [] := by simpa using hr
+        simp [this]
+      | some e' =>
+        have hne : r.filter sel ≠ [] := by intro h; rw [h] at hr; simp at hr
+        rw [List.getLast?_cons_of_ne_nil hne, hr]
+    · have hs' : sel e = false := by simpa using hs
+      rw [hs']
+      simp only [Bool.false_eq_true, if_false]
+
+/-- in a list in time order, the last selected event is not earlier than any selected event -/
+theorem last_is_latest (l : List Event) (hs : l.Pairwise (fun a b => a.time ≤ b.time)) (sel : Event → Bool) (e : Event)
+    (h : (l.filter sel).getLast? = some e) : e ∈ l ∧ sel e = true ∧ ∀ e' ∈ l, sel e' = true → e'.time ≤ e.time := by
+  obtain ⟨ys, hys⟩ := List.getLast?_eq_some_iff.mp h
+  have hmem : e ∈ l.filter sel := by rw [hys]; simp
+  have hp : (l.filter sel).Pairwise (fun a b => a.time ≤ b.time) := hs.sublist List.filter_sublist
+  rw [hys] at hp
+  obtain ⟨_, _, hall⟩ := List.pairwise_append.mp hp
+  refine ⟨(List.mem_filter.mp hmem).1, (List.mem_filter.mp hmem).2, ?_⟩
+  intro e' he' hsel
+  have : e' ∈ ys ++ [e] := by rw [← hys]; exact List.mem_filter.mpr ⟨he', hsel⟩
+  rcases List.mem_append.mp this with h1 | h1
+  · exact hall e' h1 e (by simp)
+  · simp only [List.mem_singleton] at h1; subst h1; exact Int.le_refl _
+
+theorem sortByTime_sorted (es : List Event) : (sortByTime es).Pairwise (fun a b => a.time ≤ b.time) := by
+  have := List.pairwise_mergeSort timeLe_trans timeLe_total es
+  simpa [timeLe, sortByTime] using this
+theorem mem_sortByTime (es : List Event) (e : Event) : e ∈ sortByTime es ↔ e ∈ es :=
+  (List.mergeSort_perm es timeLe).mem_iff
+
+/-- **the controller value re-issued for a channel is the one in force at the point**: it was written on that channel before the
+    point, and no controller event of the same number on that channel before the point is later in time -/
+theorem C14_restores_latest_in_time (p : Int) (es : List Event) (ch no : Nat) (v : Int)
+    (h : (pfAcc p es).cc.lookup (ch, no) = some v) :
+    ∃ e ∈ es, e.kind = .cc ∧ e.ch = ch ∧ e.v1 = no ∧ e.v2 = v ∧ e.time < p ∧
+      ∀ e' ∈ es, e'.kind = .cc → e'.ch = (ch : Int) → e'.v1 = (no : Int) → e'.time < p → e'.time ≤ e.time := by
+  unfold pfAcc at h
+  rw [fold_last (pfStep p) (fun a => a.cc.lookup (ch, no)) (isCcFor p (ch, no)) (·.v2) (fun a e => cc_step p a e (ch, no))] at h
+  cases hl : ((sortByTime es).filter (isCcFor p (ch, no))).getLast? with
+  | none => rw [hl] at h; simp at h
+  | some e =>
+    rw [hl] at h
+    simp only [Option.some.injEq] at h
+    obtain ⟨hm, hsel, hlate⟩ := last_is_latest _ (sortByTime_sorted es) _ e hl
+    simp only [isCcFor, Bool.and_eq_true, decide_eq_true_eq, Prod.mk.injEq] at hsel
+    obtain ⟨⟨⟨hk, ht⟩, hr⟩, hch, hno⟩ := hsel
+    refine ⟨e, (mem_sortByTime es e).mp hm, hk, by omega, by omega, h, by omega, ?_⟩
+    intro e' he' hk' hch' hno' ht'
+    apply hlate e' ((mem_sortByTime es e').mpr he')
+    simp only [isCcFor, Bool.and_eq_true, decide_eq_true_eq, Prod.mk.injEq]
+    refine ⟨⟨⟨hk', by omega⟩, by omega⟩, by omega, by omega⟩
+
+/-- the same for the program re-issued for a channel -/
+theorem C14_restores_latest_program (p : Int) (es : List Event) (ch : Nat) (v : Int)
+    (h : (pfAcc p es).voice.lookup ch = some v) :
+    ∃ e ∈ es, e.kind = .voice ∧ e.ch = ch ∧ e.v1 = v ∧ e.time < p ∧
+      ∀ e' ∈ es, e'.kind = .voice → e'.ch = (ch : Int) → e'.time < p → e'.time ≤ e.time := by
+  unfold pfAcc at h
+  rw [fold_last (pfStep p) (fun a => a.voice.lookup ch) (isVoiceFor p ch) (·.v1) (fun a e => voice_step p a e ch)] at h
+  cases hl : ((sortByTime es).filter (isVoiceFor p ch)).getLast? with
+  | none => rw [hl] at h; simp at h
+  | some e =>
+    rw [hl] at h
+    simp only [Option.some.injEq] at h
+    obtain ⟨hm, hsel, hlate⟩ := last_is_latest _ (sortByTime_sorted es) _ e hl
+    simp only [isVoiceFor, Bool.and_eq_true, decide_eq_true_eq] at hsel
+    obtain ⟨⟨⟨hk, ht⟩, hr⟩, hch⟩ := hsel
+    refine ⟨e, (mem_sortByTime es e).mp hm, hk, by omega, h, by omega, ?_⟩
+    intro e' he' hk' hch' ht'
+    apply hlate e' ((mem_sortByTime es e').mpr he')
+    simp only [isVoiceFor, Bool.and_eq_true, decide_eq_true_eq]
+    refine ⟨⟨⟨hk', by omega⟩, by omega⟩, by omega⟩
+
+/-- put together, on the file's events: every re-issued controller event carries, on its own channel, the value of the latest
+    controller event of that number written on that channel before the point -/
+theorem C14_reissued_controller_in_force (p : Int) (es : List Event) (x : Event) (hx : x ∈ restoreAll (pfAcc p es)) (hk : x.kind = .cc) :
+    x.time = 0 ∧ ∃ e ∈ es, e.kind = .cc ∧ e.ch = x.ch ∧ e.v1 = x.v1 ∧ e.v2 = x.v2 ∧ e.time < p ∧
+      ∀ e' ∈ es, e'.kind = .cc → e'.ch = x.ch → e'.v1 = x.v1 → e'.time < p → e'.time ≤ e.time := by
+  obtain ⟨h0, hcase⟩ := C14_restored_at_zero (pfAcc p es) x hx
+  rcases hcase with ⟨_, hch, hv1, hl⟩ | ⟨hv, _⟩
+  · obtain ⟨e, he, h1, h2, h3, h4, h5, h6⟩ := C14_restores_latest_in_time p es _ _ _ hl
+    refine ⟨h0, e, he, h1, by omega, by omega, h4, h5, ?_⟩
+    intro e' he' hk' hc' hn' ht'
+    exact h6 e' he' hk' (by omega) (by omega) ht'
+  · rw [hk] at hv; cases hv
 
 /-- notes that start before the point are omitted; the others keep their distance to the point -/
 theorem C14_keep_law (p : Int) (e : Event) (hk : e.kind = .noteOn) :
@@ -137,6 +295,16 @@ theorem C14_no_playfrom (tracks : List (List Event)) (pf : Int) (h : pf < 0) :
 -- non-vacuity
 example : getTime 96 3 8 1 [2, 2, 5] = ((2 - 1 + 1) * 3 + (2 - 1)) * 48 + 5 := by decide
 example : playFrom 10 [⟨.cc, 0, 1, 7, 100, 0, []⟩, ⟨.voice, 2, 1, 5, 0, 0, []⟩, ⟨.noteOn, 5, 1, 60, 10, 100, []⟩, ⟨.noteOn, 10, 1, 62, 10, 100, []⟩]
-    = [⟨.cc, 0, 1, 7, 100, 0, []⟩, ⟨.voice, 0, 1, 5, 0, 0, []⟩, ⟨.noteOn, 0, 1, 62, 10, 100, []⟩] := by decide
+    = [⟨.cc, 0, 1, 7, 100, 0, []⟩, ⟨.voice, 0, 1, 5, 0, 0, []⟩, ⟨.noteOn, 0, 1, 62, 10, 100, []⟩] := by
+  unfold playFrom pfAcc sortByTime
+  rw [List.mergeSort_of_pairwise (by decide)]
+  decide
+-- two channels in one track, in time order: the value in force at tick 10 on channel 1 is 30 (tick 8), on channel 2 it is 99, each
+-- re-issued on its own channel
+example : playFrom 10 [⟨.cc, 2, 1, 7, 20, 0, []⟩, ⟨.cc, 3, 2, 7, 99, 0, []⟩, ⟨.cc, 8, 1, 7, 30, 0, []⟩, ⟨.noteOn, 10, 2, 62, 10, 100, []⟩]
+    = [⟨.cc, 0, 1, 7, 30, 0, []⟩, ⟨.cc, 0, 2, 7, 99, 0, []⟩, ⟨.noteOn, 0, 2, 62, 10, 100, []⟩] := by
+  unfold playFrom pfAcc sortByTime
+  rw [List.mergeSort_of_pairwise (by decide)]
+  decide
 
 end Sakura.Props.C14
